@@ -22,6 +22,10 @@ typedef struct { unsigned appends; size_t il_n; uint16_t il[5]; } vstr_c16;
 typedef struct { unsigned appends; } vstr_c32;
 static inline vstr_c8 vstr_c8_ctor(void) { vstr_c8 s; s.data = 0; s.size = 0; s.appends = 0; s.app_first = 0; s.app_last = 0; s.il_n = 0; return s; }
 static inline char* vstr_c8_data(vstr_c8* s) { return s->data; }
+/* characters pushed one by one are NOT the transcoding Utf8::Encode produces: the text becomes an unrelated buffer (the obligations on from_chars' range then fail) */
+static char g_pushed_text[8];
+static inline void vstr_c8_push_back__c8(vstr_c8* s, char c) { s->data = g_pushed_text; g_pushed_text[s->size < 8 ? s->size : 7] = c; s->size++; }
+static inline void vstr_c8_reserve__u64(vstr_c8* s, unsigned long n) { (void)s; (void)n; }
 static inline size_t vstr_c8_size___k(const vstr_c8* s) { return s->size; }
 static inline vsv_c8 vstr_c8_conv_vsv_c8___k(const vstr_c8* s) { vsv_c8 v; v.data = s->data; v.size = s->size; return v; }
 static inline vstr_c8* vstr_c8_append_pc8_v__pc8_pc8(vstr_c8* s, char* first, char* last) { __CPROVER_assert(__CPROVER_same_object(first, last) && __CPROVER_POINTER_OFFSET(first) <= __CPROVER_POINTER_OFFSET(last), "MODEL: append(first,last) is given a valid range"); s->appends++; s->app_first = first; s->app_last = last; s->app_len = (size_t)(last - first); return s; }
